@@ -12,7 +12,19 @@ SIZES = [4, 6, 6.5, 7, 7.75, 9, 10, 10.5, 10.75, 12, 18, 24, 36, 48]    # multip
 DPIS = [36, 72, 96, 150, 300, 600]
 FONT_NAMES = ["Times New Roman", "Times New Roman Greek", "Arial Greek", "Arial", "Helvetica", "Calibri", "Georgia", "Cambria", "Courier New", "Symbol"]
 POOLS = {"ascii": [chr(c) for c in range(32, 127)], "latin1": [chr(c) for c in range(0xA1, 0x100) if c != 0xAD],
-         "greek": [chr(c) for c in range(0x391, 0x3CA) if c != 0x3A2]}
+         "greek": [chr(c) for c in range(0x391, 0x3CA) if c != 0x3A2],
+         "digit": list("0123456789"), "upper": [chr(c) for c in range(65, 91)], "lower": [chr(c) for c in range(97, 123)], "space": [" "],
+         "punct": list(".,;:!?-'\"()/%+*=")}
+
+
+def make_text(classes, rng):
+    out = []
+    for c in classes:
+        if c == "rep":
+            out.append(out[-1] if out else "a")
+        else:
+            out.append(rng.choice(POOLS[c]))
+    return "".join(out)
 
 
 def _ulps(value, exact):
@@ -29,7 +41,7 @@ def run_one(item):
     rng = random.Random(item["seed"])
     font, size = h["font"], SIZES[h["size"] - 1]
     name = FONT_NAMES[font - 1]
-    text = item.get("text") if item.get("text") is not None else "".join(rng.choice(POOLS[c]) for c in h["txt"])
+    text = item.get("text") if item.get("text") is not None else make_text(h["txt"], rng)
     rec = {"id": item["id"], "h": h, "text": text}
     c = {"font": font, "bad": h["bad"], "outcome": "ok", "adv64": 0, "w1": 0, "w2": 0, "s1": 2, "s2": 2, "ulp_in": 0, "ulp_mm": 0, "ulp_px": 0}
     ev = []
